@@ -609,7 +609,7 @@ def main():
             family, tmpl = "reuse", REUSE_TEMPLATES[(idx // 10) % len(REUSE_TEMPLATES)]
         if idx == a.n - 1:
             family, tmpl = "fresh", "page_shape"
-        h = History(gw, idx, family, rng, max_ops=6)
+        h = History(gw, idx, family, rng, max_ops=max(6, a.events // 4))
         if tmpl:
             h.template(tmpl)
         else:
